@@ -377,14 +377,16 @@ Print Assumptions C10_seg_word.
 
 (** the bulk operation's model (Run/WideC10.v: words through NewPath, texts through PathStr, digest,
     first K again) equals its specification (texts of the enumerated nodes), for any number of paths *)
-Theorem C10_bulk_model_spec : forall segs K, Forall seg_dom segs -> c10w_bulk segs K = Some (bulk_spec segs K).
+Theorem C10_bulk_model_spec : forall segs K stride, 0 <= K -> 1 <= stride -> Forall seg_dom segs ->
+  c10w_bulk segs K stride = Some (bulk_spec segs K stride).
 Proof. exact bulk_model_spec. Qed.
 Print Assumptions C10_bulk_model_spec.
 
 Example C10_session_nonvacuous :
   seg_dom (8, 4, 10, 2) /\
-  c10w_bulk [(8, 4, 10, 2); (9, 4, 5, 1)] 2 = Some (bulk_spec [(8, 4, 10, 2); (9, 4, 5, 1)] 2) /\
-  snd (bulk_spec [(8, 4, 10, 2); (9, 4, 5, 1)] 2) = [[49; 48; 49; 48]; [49; 48; 49; 49]] /\
+  c10w_bulk [(8, 4, 10, 2); (9, 4, 5, 1)] 2 1 = Some (bulk_spec [(8, 4, 10, 2); (9, 4, 5, 1)] 2 1) /\
+  snd (bulk_spec [(8, 4, 10, 2); (9, 4, 5, 1)] 2 1) = [[49; 48; 49; 48]; [49; 48; 49; 49]] /\
+  bulk_nodes [(8, 4, 0, 16)] 5 = [node_of 4 0; node_of 4 5; node_of 4 10; node_of 4 15] /\
   PathBits (enc 8 [true; false; true; false]) = PathBits (enc 9 [false; true; false; true]) /\
   PathStr (enc 9 [false; true; false; true]) = [48; 49; 48; 49].
 Proof. repeat apply conj; vm_compute; try reflexivity; try lia; congruence. Qed.
